@@ -664,6 +664,7 @@ func vcMod[T any](p *T) {}
 func vcModElems[T any](s []T) {}
 func vcModObj[T any](p *T) {}
 func vcLen[T any](s []T) int { return len(s) }
+func vcSame[T any](a, b T) bool { return true }
 `
 
 // generate returns the synthetic Go file for one package directory.
@@ -703,7 +704,11 @@ func (cs *ContractSet) generate(dir string) (string, error) {
 func paramList(ps []Param) string {
 	var l []string
 	for _, p := range ps {
-		l = append(l, p.Name+" "+p.Type)
+		t := p.Type
+		if strings.HasPrefix(t, "...") {
+			t = "[]" + t[3:]
+		}
+		l = append(l, p.Name+" "+t)
 	}
 	return strings.Join(l, ", ")
 }
